@@ -111,13 +111,20 @@ func runFwd(args []string) error {
 				kind := id % 3
 				go func() {
 					var err error
+					// every shape of request and of the leader's answer (nothing deleted, failed predicate with an empty
+					// branch, previous pairs asked for): the call waits for the revision all the same
 					switch kind {
 					case 0:
-						_, err = srv.Put(ctx, &regattapb.PutRequest{Table: tb, Key: []byte("k"), Value: []byte("v")})
+						_, err = srv.Put(ctx, &regattapb.PutRequest{Table: tb, Key: []byte("k"), Value: []byte("v"), PrevKv: id%2 == 0})
 					case 1:
-						_, err = srv.DeleteRange(ctx, &regattapb.DeleteRangeRequest{Table: tb, Key: []byte("k")})
+						_, err = srv.DeleteRange(ctx, &regattapb.DeleteRangeRequest{Table: tb, Key: []byte("k"), Count: id%2 == 0, PrevKv: id%4 < 2})
 					default:
-						_, err = srv.Txn(ctx, &regattapb.TxnRequest{Table: tb, Success: []*regattapb.RequestOp{{Request: &regattapb.RequestOp_RequestPut{RequestPut: &regattapb.RequestOp_Put{Key: []byte("k"), Value: []byte("v")}}}}})
+						put := []*regattapb.RequestOp{{Request: &regattapb.RequestOp_RequestPut{RequestPut: &regattapb.RequestOp_Put{Key: []byte("k"), Value: []byte("v")}}}}
+						req := &regattapb.TxnRequest{Table: tb, Success: put}
+						if id%2 == 0 { // the branch the leader reports as executed is empty
+							req = &regattapb.TxnRequest{Table: tb, Compare: []*regattapb.Compare{{Key: []byte("absent")}}, Failure: put}
+						}
+						_, err = srv.Txn(ctx, req)
 					}
 					cl.done <- err
 				}()
